@@ -57,7 +57,7 @@ def r1(ctx):
                 hdr_ok = field_of(req, "header") is not TOP and (F(HF, "cas") in atoms(field_of(req, "header", "cas")) or field_of(req, "header") == HF or isinstance(field_of(req, "header"), Struct))
                 ok = same and hdr_ok
                 why = "flags=%s expiration=%s key=%s value=%s" % (short(fl, 50), short(ex, 50), short(k, 70), short(v, 90))
-        rep.check(ok, "set-layout:%#04x" % op, "flags@0 expiration@4 key@8 value@8+key_length", "set-family frame %#04x is sliced as %s" % (op, why), f.one(CODEC + "::parse_set_request").loc())
+        rep.check(ok, "set-layout:%#04x" % op, "flags@0 expiration@4 key@8 value@8+key_length", "set-family frame %#04x is sliced as %s" % (op, why), safe_loc(f, CODEC + "::parse_set_request"))
     for op, parser in ((0x00, "parse_get_request"), (0x09, "parse_get_request"), (0x0C, "parse_get_request"), (0x0D, "parse_get_request"), (0x04, "parse_delete_request"), (0x14, "parse_delete_request")):
         ok = False
         why = "no decoded request"
@@ -67,7 +67,7 @@ def r1(ctx):
                 k = field_of(req, "key")
                 ok = isinstance(k, tuple) and k[0] == "bufslice" and k[2] == 0 and k[3] == kl and buffer_root_ok(k[1])
                 why = "key=%s" % short(k, 100)
-        rep.check(ok, "key-layout:%#04x" % op, "key = body[0..key_length]", "frame %#04x: %s" % (op, why), f.one(CODEC + "::" + parser).loc())
+        rep.check(ok, "key-layout:%#04x" % op, "key = body[0..key_length]", "frame %#04x: %s" % (op, why), safe_loc(f, CODEC + "::" + parser))
     return rep
 
 
